@@ -111,7 +111,46 @@ static double pick_x(Rng& r, const std::vector<double>& k, int order, bool wild,
 
 template <typename F> static uint64_t call_value(const Table& t, const double* x, const int* c, int mask) { return cbits(t.ndsplineeval<F>(x, c, mask)); }
 
+// REPLAY mode: re-execute the case lines of a file (a `T` line followed by S/V/B/D/E/G lines) on the real code
+static int replay(const char* casefile, const char* implfile) {
+  FILE* f = fopen(casefile, "r"); fi = fopen(implfile, "w");
+  if (!f || !fi) return 2;
+  std::unique_ptr<Table> t; struct splinetable ct; ct.data = nullptr;
+  std::vector<char> buf(1 << 24);
+  while (fgets(buf.data(), buf.size(), f)) {
+    std::vector<std::string> w; { std::istringstream is(buf.data()); std::string z; while (is >> z) w.push_back(z); }
+    if (w.empty()) continue;
+    if (w[0] == "T") {
+      size_t p = 1; uint32_t nd = std::stoul(w[p++]); std::vector<uint32_t> ord(nd); std::vector<std::vector<double>> padded(nd);
+      for (uint32_t d = 0; d < nd; d++) { ord[d] = std::stoul(w[p++]); uint64_t nk = std::stoull(w[p++]); p++; /*stride*/
+        for (uint64_t j = 0; j < nk + 2 * ord[d]; j++) padded[d].push_back(from_bits(std::stoull(w[p++]))); }
+      uint64_t nc = std::stoull(w[p++]); std::vector<float> coef(nc); for (auto& c : coef) c = from_bits32((uint32_t)std::stoul(w[p++]));
+      t.reset(new Table()); build_table_padded(*t, ord, padded, coef); ct.data = t.get();
+      fprintf(fi, "table\n"); continue;
+    }
+    if (!t) { fprintf(fi, "no-table\n"); continue; }
+    uint32_t nd = t->ndim; fflush(fi);
+    auto xs_at = [&](size_t p) { std::vector<double> x(nd); for (uint32_t d = 0; d < nd; d++) x[d] = from_bits(std::stoull(w[p + d])); return x; };
+    auto cs_at = [&](size_t p) { std::vector<int> c(nd); for (uint32_t d = 0; d < nd; d++) c[d] = std::stoi(w[p + d]); return c; };
+    alarm(60);
+    if (w[0] == "S") { auto x = xs_at(1); std::vector<int> c(nd, -12345); bool ok = t->searchcenters(x.data(), c.data());
+      if (ok) { fprintf(fi, "ok"); for (uint32_t d = 0; d < nd; d++) fprintf(fi, " %d", c[d]); fprintf(fi, "\n"); } else fprintf(fi, "reject\n"); }
+    else if (w[0] == "V" || w[0] == "B") { bool dbl = w[1] == "d"; int mask = std::stoi(w[2]); auto x = xs_at(3); auto c = cs_at(3 + nd);
+      fprintf(fi, "%llu\n", (unsigned long long)(dbl ? call_value<double>(*t, x.data(), c.data(), mask) : call_value<float>(*t, x.data(), c.data(), mask))); }
+    else if (w[0] == "D" || w[0] == "E") { bool dbl = w[1] == "d"; std::vector<unsigned> ks(nd); for (uint32_t d = 0; d < nd; d++) ks[d] = std::stoul(w[2 + d]); auto x = xs_at(2 + nd); auto c = cs_at(2 + 2 * nd);
+      double v = dbl ? t->get_evaluator<double>().ndsplineeval_deriv(x.data(), c.data(), ks.data()) : t->ndsplineeval_deriv(x.data(), c.data(), ks.data());
+      fprintf(fi, "%llu\n", (unsigned long long)cbits(v)); }
+    else if (w[0] == "G") { bool dbl = w[1] == "d"; auto x = xs_at(2); auto c = cs_at(2 + nd); std::vector<double> g(nd + 1, -7);
+      try { if (dbl) t->ndsplineeval_gradient<double>(x.data(), c.data(), g.data()); else t->ndsplineeval_gradient<float>(x.data(), c.data(), g.data());
+        for (uint32_t j = 0; j <= nd; j++) fprintf(fi, "%s%llu", j ? " " : "", (unsigned long long)cbits(g[j])); fprintf(fi, "\n"); }
+      catch (std::exception&) { fprintf(fi, "refused\n"); } }
+    else fprintf(fi, "skipped\n");
+  }
+  fclose(fi); return 0;
+}
+
 int main(int argc, char** argv) {
+  if (argc >= 4 && std::string(argv[1]) == "REPLAY") return replay(argv[2], argv[3]);
   if (argc < 7) { fprintf(stderr, "usage\n"); return 2; }
   std::string profile = argv[1];
   long ntables = atol(argv[2]), npoints = atol(argv[3]);
